@@ -363,7 +363,14 @@ class ClientDriver(ReorgDriver):
             return True
         if not c.connect():
             return False
-        c.send('server.version', ['sim', '1.4.2'])
+        # protocol version per client (per-run knob): 1.4 / 1.4.1 sessions have no unsubscribe method, a
+        # session that never sends server.version runs with the handlers of the minimum version
+        protos = self.w.k.get('protos')
+        ver = '1.4.2'
+        if protos and c in self.cl:
+            ver = protos[self.cl.index(c) % len(protos)]
+        if ver is not None:
+            c.send('server.version', ['sim', ver])
         return True
 
     def op_c_connect(self, op):
@@ -932,6 +939,7 @@ class SubsFamily(ReorgFamily):
                                           (0.5, 9.0)])
         if rng.random() < 0.35:
             k['gen_weights'] = dict(wide_pool=True)     # little script overlap between transactions
+        k['protos'] = [rng.choice(['1.4.2'] * 6 + ['1.4', '1.4.1', ['1.4', '1.4.2'], None]) for _ in range(4)]
         plan = [dict(op='mine', n=n0, ntx=ntx_list(rng, n0), seed=rng.getrandbits(32), keep=True),
                 dict(op='start', keep=True),
                 dict(op='poker', period=rng.choice([(0.05, 2.0), (0.5, 10.0), (2.0, 30.0)]),
